@@ -57,8 +57,9 @@ IDENT_RE = re.compile(r"(?<![\w@$:.])[A-Za-z_]\w*[?!]?")
 class Gen:
     """Stateful builder used inside one composite draw."""
 
-    def __init__(self, draw, prefix="", errors=0.1, max_depth=3, allow_defs=True, allow_classes=True, want_dbtp=True):
+    def __init__(self, draw, prefix="", errors=0.1, max_depth=3, allow_defs=True, allow_classes=True, want_dbtp=True, case_in=False):
         self.draw = draw
+        self.case_in = case_in
         self.n = 0
         self.prefix = prefix
         self.vars = {}          # name -> coarse type or frozenset of coarse types (union)
@@ -339,6 +340,32 @@ class Gen:
             node["m"].append(["else", self.body(depth + 1, n=1)])
         return [node]
 
+    def s_case_in(self, depth):
+        unions = [v for v, t in self.vars.items() if isinstance(t, frozenset)]
+        sv = self.scalar_vars(I) + self.scalar_vars(S)
+        if not unions and not sv:
+            return self.s_assign()
+        v = self.pick(unions or sv)
+        node = {"h": "case %s" % v, "b": [], "m": [], "e": "end"}
+        cls = ["Integer", "String", "Float", "Symbol"]
+        for k in range(self.i(1, 2)):
+            c = cls[(self.i(0, 3) + k) % 4]
+            saved = dict(self.vars)
+            if self.chance(0.6):
+                pv = self.fresh("blk")
+                self.vars[pv] = "?"
+                head = "in %s => %s" % (c, pv)
+                pre = [{"t": "dbtp %s" % pv}] if self.want_dbtp else []
+            else:
+                head = "in %s" % c
+                pre = []
+            b = pre + self.body(depth + 1, n=self.i(1, 2))
+            self.vars = {k2: (saved[k2] if self.vars.get(k2) == saved[k2] else "?") for k2 in saved}
+            node["m"].append([head, b])
+        if self.chance(0.5):
+            node["m"].append(["else", self.body(depth + 1, n=1)])
+        return [node]
+
     def def_node(self, depth, static=False, in_class=False):
         name = self.fresh("method")
         npar = self.i(0, 3)
@@ -466,7 +493,7 @@ class Gen:
             if r < 77:
                 return self.s_times(depth)
             if r < 81:
-                return self.s_case(depth)
+                return self.s_case_in(depth) if (self.case_in and self.chance(0.5)) else self.s_case(depth)
             if top and self.allow_defs and r < 89:
                 return self.s_def(depth)
             if top and self.allow_classes and r < 96:
@@ -479,8 +506,8 @@ class Gen:
 
 
 @st.composite
-def program(draw, prefix="", min_stmts=3, max_stmts=10, errors=0.08, allow_defs=True, allow_classes=True, want_dbtp=True, max_depth=3):
-    g = Gen(draw, prefix=prefix, errors=errors, allow_defs=allow_defs, allow_classes=allow_classes, want_dbtp=want_dbtp, max_depth=max_depth)
+def program(draw, prefix="", min_stmts=3, max_stmts=10, errors=0.08, allow_defs=True, allow_classes=True, want_dbtp=True, max_depth=3, case_in=False):
+    g = Gen(draw, prefix=prefix, errors=errors, allow_defs=allow_defs, allow_classes=allow_classes, want_dbtp=want_dbtp, max_depth=max_depth, case_in=case_in)
     n = draw(st.integers(min_stmts, max_stmts))
     tree = []
     for _ in range(n):
